@@ -76,6 +76,7 @@ var props = map[string]Prop{
 			{Name: "programs", Test: "TestC10Programs", Shards: [2]int{4, 16}, Checks: [2]int{1500, 30000}, Timeout: [2]time.Duration{5 * min, 40 * min}},
 			{Name: "corrupt", Test: "TestC10Corrupt", Shards: [2]int{4, 16}, Checks: [2]int{4000, 60000}, SeedOffset: 1, Timeout: [2]time.Duration{5 * min, 40 * min}},
 			{Name: "soups", Test: "TestC10Soups", Shards: [2]int{4, 16}, Timeout: [2]time.Duration{5 * min, 40 * min}},
+			{Name: "large", Test: "TestC10Large", Shards: [2]int{2, 8}, Checks: [2]int{40, 400}, SeedOffset: 3, Timeout: [2]time.Duration{5 * min, 30 * min}},
 			{Name: "fuzz", Fuzz: "FuzzC10Positions", Shards: [2]int{0, 1}, FuzzTime: [2]time.Duration{0, 3 * min}},
 		},
 		Rule: "programs: rapid-generated grammar programs (all operators and optional parts, lets, nested joins, hostile names) in two random layouts each (multi-line, tabs, comments, non-ASCII); corrupt: token- and byte-level corruptions of such programs; soups: every sequence of <= 4 (thorough 5) tokens over a 15-symbol alphabet in eight contexts; thorough adds native fuzzing. Oracle, success half (every input that parses, including accepted mutants): each recorded span is non-empty, inside the source, starts and ends on Scan token boundaries and its text re-scans to exactly the lexeme it claims (identifier with that name, literal with that value, that operator, keyword, bracket; two-token spans for `sort by` and `nulls first/last`); required spans are valid; all leaf spans are pairwise disjoint and together cover every token except commas, dots and semicolons exactly once; every node's Span() equals the reflective union of all spans below it, contains its parts, and parts are ordered left to right. Failure half: every span reachable in the partial tree and every Span() result is invalid or inside [0,len]; Span() never panics; every line:column prefix of Parse's and Compile's error text is the line/column of some offset of the source (tab stops of 8). Non-trivial = success: layout with newline/tab/comment/non-ASCII and a render, top, join-kind or sort-flag operator; failure: failed parse with a partial tree (soups: any failed parse); distinct = program shape x layout class, or distinct source.",
@@ -100,6 +101,7 @@ var props = map[string]Prop{
 		Stages: []Stage{
 			{Name: "programs", Test: "TestC11Programs", Shards: [2]int{4, 16}, Checks: [2]int{2500, 40000}, Timeout: [2]time.Duration{5 * min, 40 * min}},
 			{Name: "soups", Test: "TestC11Soups", Shards: [2]int{4, 16}, SeedOffset: 1, Timeout: [2]time.Duration{5 * min, 40 * min}},
+			{Name: "large", Test: "TestC11Large", Shards: [2]int{2, 8}, Checks: [2]int{40, 300}, SeedOffset: 2, Timeout: [2]time.Duration{5 * min, 40 * min}},
 		},
 		Rule: "programs: rapid-generated grammar programs covering every node type in every child position (parenthesised expressions, unnamed extend/summarize columns, project with/without expression, render with/without properties, nested and chained joins, lets), one in five corrupted by token edits and kept if it still parses; two pruning draws each; soups: every short token sequence (same alphabets/contexts as C08) that parses. Oracle: reflection over exported fields enumerates the node graph; parser.Walk under recover must not panic, never pass a nil node, visit every *Ident and every Expr node (except CallExpr.Func and JoinOperator.Flavor) exactly once by pointer identity, visit nothing twice and nothing outside the tree, visit ancestors first; with a rapid-drawn set of visits answering false the visited set is exactly the full set minus strict descendants of those nodes; the same laws for Walk started at every expression subtree (the compiler's usage). Non-trivial = tree with >= 10 nodes and at least one of {ParenExpr, unnamed extend/summarize column, render property, join, project column without expression, let}; distinct = program shape x pruning draw.",
 		Assumptions: []string{"the set of nodes is what is reachable through exported fields of pointer/interface/slice type implementing parser.Node"},
@@ -144,6 +146,7 @@ var props = map[string]Prop{
 		Stages: []Stage{
 			{Name: "programs", Test: "TestC05Programs", Shards: [2]int{4, 16}, Checks: [2]int{4000, 80000}, Timeout: [2]time.Duration{10 * min, 60 * min}},
 			{Name: "soups", Test: "TestC05Soups", Shards: [2]int{4, 16}, SeedOffset: 1, Timeout: [2]time.Duration{10 * min, 60 * min}},
+			{Name: "large", Test: "TestC05Large", Shards: [2]int{2, 8}, Checks: [2]int{40, 400}, SeedOffset: 2, Timeout: [2]time.Duration{5 * min, 30 * min}},
 			{Name: "fuzz", Fuzz: "FuzzC05Statement", Shards: [2]int{0, 1}, FuzzTime: [2]time.Duration{0, 4 * min}},
 		},
 		Rule: "programs: rapid-generated rule-abiding programs of every shape (all operators, nested joins, lets before and after the query, hostile quoted names and strings, odd-but-accepted forms: negative and parenthesised limits, literals as predicates, operator keywords as column names) in random layouts, half of them corrupted by token edits and kept when they still compile; benign parameter maps; soups: every short token sequence (C08's alphabets and contexts) that compiles; thorough adds native fuzzing seeded with the goldens. Oracle on every successful compilation: the output lexes under standard and under ClickHouse quoting rules without unterminated token or comment, holds exactly one `;` and it is the last token, has balanced brackets, parses as [WITH name AS (select), ...] select; every FROM/JOIN reads a table named in the PQL source (taken from parser.Parse's TableRefs and `as` names) or a CTE defined earlier; CTE names are pairwise distinct; every CTE is used. Non-trivial = the statement has a CTE or a join, or the source is a compiled mutant/soup; distinct = distinct sources.",
